@@ -23,6 +23,29 @@ def nontrivial(parts):
     return any(any(m in o for m in BOUNDARY_MARKERS) for o in ops)
 
 
+STRING_OPS = ("tonumberS", "strarithS", "literal")
+
+
+def qbytes(hexs):
+    """canonical readable form of a byte string for violation keys: printable ASCII except `"` and `\\` as is,
+    everything else as \\xNN, in double quotes"""
+    out = []
+    for c in bytes.fromhex(hexs):
+        if 32 <= c < 127 and c not in (34, 92):
+            out.append(chr(c))
+        else:
+            out.append("\\x%02x" % c)
+    return '"' + "".join(out) + '"'
+
+
+def nontrivial_string(hexs, got, exp):
+    """numeral string: non-trivial when at least one side takes it for a number and it is not a plain run of
+    fewer than 16 decimal digits (so it has a sign, space, point, exponent, hex prefix, or is near a size boundary)"""
+    b = bytes.fromhex(hexs)
+    accepted = got not in ("n", "E") or exp not in ("n", "E")
+    return accepted and not (b.isdigit() and len(b) < 16)
+
+
 def compare(ctx, impl_lines, label):
     exp = common.run_oracle("c02", impl_lines)
     if len(exp) != len(impl_lines):
@@ -37,6 +60,16 @@ def compare(ctx, impl_lines, label):
             raise common.BuildError("oracle could not parse: " + line)
         got = canon_result(parts[-1])
         inp = " ".join(parts[:-2])
+        if op in STRING_OPS and len(parts) == 4 and parts[1].startswith("s"):
+            ctx.case(inp, nontrivial_string(parts[1][1:], got, e))
+            ctx.count(label + ":" + op)
+            if got != e:
+                what = {"tonumberS": "tonumber(s)", "strarithS": "s + 0", "literal": "the chunk `return <s>`"}[op]
+                ctx.violation("%s %s" % (op, qbytes(parts[1][1:])),
+                              "%s for s = %s: golua gives %s, Lua 5.4 (Spec.Numeral) prescribes %s" % (
+                                  what, qbytes(parts[1][1:]), got, e),
+                              "c02 replay %s\nobserved %s\nexpected %s\n" % (inp, got, e))
+            continue
         ctx.case(inp, nontrivial(parts))
         ctx.count(label + ":" + op)
         if got != e:
@@ -50,7 +83,8 @@ def compare(ctx, impl_lines, label):
 def run(ctx):
     ctx.rule = ("cases = (operator, operands) run through the compiled Lua function `a OP b`; lattice enumerated "
                 "exhaustively (all pairs) plus seeded random operands; non-trivial = mixed int/float operands or an "
-                "operand from a boundary class (around 2^53, 2^63, minint/maxint, inf, NaN); distinct by canonical text")
+                "operand from a boundary class (around 2^53, 2^63, minint/maxint, inf, NaN); numeral strings: taken for a "
+                "number by golua or by Spec.Numeral and not a short run of decimal digits; distinct by canonical text")
     ctx.assumptions = [
         "float + - * / floor are taken from the hardware (Lean Float) in the oracle, not from the kernel model",
         "pow and transcendental functions are not checked",
@@ -73,6 +107,14 @@ def run(ctx):
     if rc != 0:
         raise common.BuildError("c02 harness failed: " + err[-2000:])
     compare(ctx, out.split("\n")[:-1], "random")
+    # numeral strings: tonumber(s), s + 0, literals, against Spec.Numeral (exhaustive short strings over the
+    # numeral alphabet, grammar-generated numerals with single-character corruptions, fixed corpus)
+    rc, out, err = common.run_harness(h, ["strings", ctx.tier])
+    if rc != 0:
+        raise common.BuildError("c02 harness (strings) failed: " + err[-2000:])
+    lines = out.split("\n")[:-1]
+    compare(ctx, lines, "strings")
+    ctx.extra["numeral_string_lines"] = len(lines)
 
 
 def replay(ctx, path):
